@@ -1,0 +1,7 @@
+//go:build !verif
+
+package sse
+
+func verifYield(any, string) {}
+
+func verifRecover(*Joe) {}
